@@ -41,6 +41,10 @@ fn parsed_clauses(s: &str, a: &Address, how: &str) -> Option<String> {
         Payload::WitnessProgram { version, program } => {
             let v = version.to_u8();
             let n = program.len();
+            // the mixed-case rule: a segwit string with letters of both cases (human-readable part included) never parses
+            if s.bytes().any(|c| c.is_ascii_uppercase()) && s.bytes().any(|c| c.is_ascii_lowercase()) {
+                return Some(format!("mixed-case-accepted|{} accepts {} which has letters of both cases", how, s));
+            }
             // finding F5 (repaired in 86be616: from_bech32 tests the program length after splitting off the blinding key) — a violation if it returns
             if a.blinding_pubkey.is_some() && v >= 1 && n < 2 {
                 return Some(format!("parsed-shape|{} accepts {} as a blinded version-{} address with a {}-byte witness program (finding F5 is back)", how, s, v, n));
@@ -191,6 +195,18 @@ pub fn gen(rng: &mut ChaCha20Rng, n: usize, thorough: bool) -> Vec<Case> {
         // near-miss strings derived from the same address
         let s = a.to_string();
         let segwit = matches!(a.payload, Payload::WitnessProgram { .. });
+        if segwit {
+            // every mixed case pattern: each of the 2^len case patterns of the human-readable part with a lower- and an upper-case data part,
+            // except the two single-case forms (covered by the `a` case above)
+            let sep = s.rfind('1').unwrap();
+            let (hrp, data) = (&s.as_bytes()[..sep], &s[sep + 1..]);
+            for mask in 0u32..(1 << sep) { for (du, d) in [(false, data.to_lowercase()), (true, data.to_uppercase())] {
+                if (mask == 0 && !du) || (mask == (1 << sep) - 1 && du) { continue; }
+                let mut t: Vec<u8> = hrp.iter().enumerate().map(|(i, &c)| if (mask >> i) & 1 == 1 { c.to_ascii_uppercase() } else { c.to_ascii_lowercase() }).collect();
+                t.push(b'1'); t.extend(d.bytes());
+                push(&mut out, format!("C06 s {}", String::from_utf8(t).unwrap()), &["near-hrp-case-pattern", if bl { "blinded" } else { "unblinded" }], true);
+            } }
+        }
         match rng.gen_range(0..12u32) {
             0 => push(&mut out, format!("C06 s {}", s.to_uppercase()), &["near-uppercase"], true),
             1 => { // one letter in the other case
